@@ -5,8 +5,12 @@
 EXTENDS Integers, Sequences, Json, TLC
 CONSTANT Scope
 VARIABLES c
-Pis == {<<"0.1", "0.2", "0.3", "0.4">>, <<"0.4", "0.1", "0.1", "0.4">>, <<"0.25", "0.25", "0.25", "0.25">>, <<"0.05", "0.45", "0.35", "0.15">>}
-Ks == IF Scope = "full" THEN {"0.2", "1", "2", "3.5", "10"} ELSE {"0.5", "1", "4"}
+\* (the open simplex has points next to its faces: one frequency of 2e-4, 5e-4 or 1e-6)
+Pis == {<<"0.1", "0.2", "0.3", "0.4">>, <<"0.4", "0.1", "0.1", "0.4">>, <<"0.25", "0.25", "0.25", "0.25">>, <<"0.05", "0.45", "0.35", "0.15">>,
+        <<"0.0002", "0.3", "0.3", "0.3998">>, <<"0.35", "0.25", "0.3995", "0.0005">>}
+       \cup (IF Scope = "full" THEN {<<"0.3", "0.000001", "0.399999", "0.3">>, <<"0.97", "0.01", "0.01", "0.01">>} ELSE {})
+\* (large transition / transversion ratios make the slowest eigenvalue small: P(t) is far from stationary at t = 30 .. 100)
+Ks == IF Scope = "full" THEN {"0.2", "1", "2", "3.5", "10", "20", "50"} ELSE {"0.5", "1", "4", "25"}
 Rs == IF Scope = "full" THEN {"0.2", "1", "3.5"} ELSE {"0.5", "2"}
 NoPi == <<>>
 UserPi == <<"0.02", "0.08", "0.05", "0.05", "0.03", "0.04", "0.06", "0.07", "0.03", "0.05", "0.09", "0.06", "0.02", "0.04", "0.05", "0.07", "0.06", "0.01", "0.03", "0.09">>
